@@ -64,9 +64,9 @@ C_K = 1.0
 TOL_FLOOR = 1e-7
 GATE_FACTOR = 20.0            # the finer RK23 run is off by up to 2.1x the gate difference (pristine) -> 20 keeps a 10x margin
 # Kamata dynamic-incompressible is ill-conditioned in the quasi-static regime (DESIGN C01 "Gate"): runs that agree with
-# their rtol/100 twin to 1e-10 are still off by up to 8e-7 (DOP853) / 2.9e-5 (RK45) through amplified rounding / atol
+# their rtol/100 twin to 1e-10..4e-7 are still off by up to 8e-7 (DOP853) / 4.3e-5 (RK45) through amplified rounding / atol
 # interplay that no two-level gate can see.  Its floor is therefore per integrator (>= 10x the pristine worst).
-KDI_FLOOR = {'DOP853': 2e-5, 'RK45': 3e-4, 'RK23': 3e-4}
+KDI_FLOOR = {'DOP853': 2e-5, 'RK45': 5e-4, 'RK23': 5e-4}
 # known-finding laws (root cause: y6 slot swap in starting/takeuchi.pyx, see C04): the defective Takeuchi starting vectors
 # excite the irregular solutions, which decay like (r0/R)^(2l+1):
 #   static part  err <= A_S * (r0/R)^(2l+1)                          (measured 0.9..1.3 at l=2, r0/R=0.05)
